@@ -1,6 +1,6 @@
 (* Model of grouped aggregation in pysparkling.sql (C14).  Definitions only.
 
-   What is transcribed (from /repo as it is today, i.e. with fixes 7c7940c and f6ad087):
+   What is transcribed (from /repo as it is today, i.e. with fixes 7c7940c, f6ad087 and cee87a5):
      sql/internals.py   GroupedStats.merge / mergeStats (first-seen group order, adopt-or-merge per key, pivot
                         slots), InternalGroupedDataFrame.agg / add_subtotals / get_subtotal_keys / pivot,
                         DataFrameInternal.describe / summary through RowStatHelper
@@ -333,11 +333,18 @@ Section Values.
     Definition first_agg : aggregator Row (option cell) cell :=
       mkAgg None first_step first_merge (fun s => match s with Some v => v | None => CNull end).
 
-    (* Last: value starts as None; mergeStats takes other.value unless (ignore_nulls and it is None) *)
-    Definition last_step (s : cell) (r : Row) : cell :=
-      let v := get r in if ign && is_null v then s else v.
-    Definition last_merge (a b : cell) : cell := if ign && is_null b then a else b.
-    Definition last_agg : aggregator Row cell cell := mkAgg CNull last_step last_merge (fun s => s).
+    (* Last (as repaired by cee87a5): state None = the _NoValue sentinel; merge(row) keeps the row's value unless
+       (ignore_nulls and it is None); mergeStats ignores a partial that saw no row, otherwise takes other.value
+       unless (ignore_nulls and it is None) *)
+    Definition last_step (s : option cell) (r : Row) : option cell :=
+      let v := get r in if ign && is_null v then s else Some v.
+    Definition last_merge (a b : option cell) : option cell :=
+      match b with
+      | None => a
+      | Some v => if ign && is_null v then a else b
+      end.
+    Definition last_agg : aggregator Row (option cell) cell :=
+      mkAgg None last_step last_merge (fun s => match s with Some v => v | None => CNull end).
   End FirstLast.
 
   (** ** the aggregate functions of sql.functions over rows = lists of cells *)
